@@ -25,7 +25,7 @@ class RustPublicKeyModel:
     verify is a function Sig(bin, msg, signature) (and may raise instead of returning False)."""
 
     def __init__(self, keystring):
-        if not uf_bool("valid_public_key", keystring):
+        if len(keystring) == 0 or not uf_bool("valid_public_key", keystring):
             raise ValueError
         self.bin = keystring
 
